@@ -201,23 +201,63 @@ pub struct CacheFunc {
     entries: Mutex<HashMap<u64, (u64, u8, bool, i16, i16, i16)>>,
     pub hits: AtomicU64, pub cross_identity_hits: AtomicU64, pub stores: AtomicU64,
     pub first: Mutex<Option<String>>,
+    /// node oracle (diagnostic): sampled stores / hits checked against the fail-soft alpha-beta contract
+    mates: Option<MateScores>,
+    pub contract_checked: AtomicU64, pub contract_unsound: AtomicU64,
+    pub first_unsound: Mutex<Option<String>>,
 }
-thread_local! { static NODES: RefCell<Vec<(u64, u8, i16, i16, bool)>> = const { RefCell::new(Vec::new()) }; }
+thread_local! {
+    static NODES: RefCell<Vec<(u64, u8, i16, i16, bool)>> = const { RefCell::new(Vec::new()) };
+    static NODE_POS: RefCell<Vec<Option<Pos>>> = const { RefCell::new(Vec::new()) };
+}
 impl CacheFunc {
-    pub fn new() -> Arc<CacheFunc> { Arc::new(CacheFunc { entries: Mutex::new(HashMap::new()), hits: AtomicU64::new(0), cross_identity_hits: AtomicU64::new(0), stores: AtomicU64::new(0), first: Mutex::new(None) }) }
+    pub fn new() -> Arc<CacheFunc> { Self::build(None) }
+    pub fn with_node_oracle(ms: &MateScores) -> Arc<CacheFunc> { Self::build(Some(MateScores { white_mated: ms.white_mated.clone(), black_mated: ms.black_mated.clone() })) }
+    fn build(mates: Option<MateScores>) -> Arc<CacheFunc> { Arc::new(CacheFunc { entries: Mutex::new(HashMap::new()), hits: AtomicU64::new(0), cross_identity_hits: AtomicU64::new(0), stores: AtomicU64::new(0), first: Mutex::new(None), mates, contract_checked: AtomicU64::new(0), contract_unsound: AtomicU64::new(0), first_unsound: Mutex::new(None) }) }
+
+    /// Sound alpha-beta bounds: inside the window the value is exact; at or below alpha it is an upper bound,
+    /// at or above beta a lower bound of the exact minimax value of the node.
+    fn check_contract(&self, key: u64, value: i16, how: &str) {
+        let ms = match &self.mates { Some(m) => m, None => return };
+        let top = match NODES.with(|n| n.borrow().last().copied()) { Some(t) => t, None => return };
+        let (depth, alpha, beta) = (top.1, top.2 as i32, top.3 as i32);
+        let rate = match depth { 0 => 32, 1 => 8, 2 => 2, 3 => 16, _ => return };
+        if (key ^ (value as u16 as u64) << 3).wrapping_mul(0x9E37_79B9_7F4A_7C15) >> 40 & 0xffff >= (0x10000 / rate) as u64 { return; }
+        let pos = match NODE_POS.with(|n| n.borrow().last().cloned().flatten()) { Some(p) => p, None => return };
+        if depth as usize >= ms.white_mated.len() { return; }
+        let mut leaves = 0u64;
+        let exact = reference_minimax(&pos, depth as u32, ms, &mut leaves);
+        self.contract_checked.fetch_add(1, Ordering::Relaxed);
+        let v = value as i32;
+        let sound = if v > alpha && v < beta { v == exact } else if v <= alpha { exact <= v } else { exact >= v };
+        if !sound {
+            self.contract_unsound.fetch_add(1, Ordering::Relaxed);
+            let mut f = self.first_unsound.lock().unwrap();
+            if f.is_none() { *f = Some(format!("{} of value {} for node {} (remaining depth {}, window ({}, {})) is not a sound bound: the node's exact minimax value is {}", how, v, pos.to_fen(), depth, alpha, beta, exact)); }
+        }
+    }
 }
 impl SearchSink for CacheFunc {
     fn event(&self, ev: &SearchEvent) {
         match ev {
-            SearchEvent::TaskBegin { .. } => NODES.with(|n| n.borrow_mut().clear()),
-            SearchEvent::NodeEnter { hash, depth, alpha, beta, maximizing } => NODES.with(|n| n.borrow_mut().push((*hash, *depth, *alpha, *beta, *maximizing))),
-            SearchEvent::NodeExit => NODES.with(|n| { n.borrow_mut().pop(); }),
+            SearchEvent::TaskBegin { .. } => { NODES.with(|n| n.borrow_mut().clear()); NODE_POS.with(|n| n.borrow_mut().clear()); }
+            SearchEvent::NodeEnter { hash, depth, alpha, beta, maximizing } => {
+                NODES.with(|n| n.borrow_mut().push((*hash, *depth, *alpha, *beta, *maximizing)));
+                if self.mates.is_some() {
+                    let mut pos = mon::TRACKED.with(|t| t.borrow().clone());
+                    if let Some(p) = pos.as_mut() { p.turn = if *maximizing { Col::W } else { Col::B }; p.halfmove = 0; }
+                    NODE_POS.with(|n| n.borrow_mut().push(pos));
+                }
+            }
+            SearchEvent::NodeExit => { NODES.with(|n| { n.borrow_mut().pop(); }); if self.mates.is_some() { NODE_POS.with(|n| { n.borrow_mut().pop(); }); } }
             SearchEvent::AfterCacheWrite { key, value } => {
                 self.stores.fetch_add(1, Ordering::Relaxed);
+                self.check_contract(*key, *value, "store");
                 if let Some(top) = NODES.with(|n| n.borrow().last().copied()) { self.entries.lock().unwrap().insert(*key, (top.0, top.1, top.4, top.2, top.3, *value)); }
             }
             SearchEvent::AfterCacheRead { key, hit: Some(v) } => {
                 self.hits.fetch_add(1, Ordering::Relaxed);
+                self.check_contract(*key, *v, "cache hit");
                 if let Some(top) = NODES.with(|n| n.borrow().last().copied()) {
                     if let Some(e) = self.entries.lock().unwrap().get(key).copied() {
                         if e.1 != top.1 || e.2 != top.4 {
@@ -248,6 +288,7 @@ fn compare_search(ctx: &Ctx, ms: &MateScores, p: &Pos, depth: u8, mv: &ChessMove
     let mut replay = json!({"fen": p.to_fen(), "depth": depth, "mode": mode, "minimax": want, "engine_score": score, "engine_move": format!("{}", mv)});
     if let serde_json::Value::Object(m) = extra { for (k, v) in m { replay[k] = v; } }
     if let Some(f) = cf.first.lock().unwrap().clone() { replay["first_non_functional_cache_hit"] = json!(f); }
+    if let Some(f) = cf.first_unsound.lock().unwrap().clone() { replay["first_unsound_interior_bound"] = json!(f); }
     let score = match score { Some(s) => s as i32, None => { ctx.violation("c08:no-score", &format!("search on {} left no score", p.to_fen()), replay); return; } };
     if score != want {
         ctx.violation(&format!("c08:score-differs-from-minimax:{}", mode), &format!("depth-{} search on {} ({}) reports {}; exact minimax is {}", depth, p.to_fen(), mode, score, want), replay);
@@ -264,10 +305,11 @@ fn compare_search(ctx: &Ctx, ms: &MateScores, p: &Pos, depth: u8, mv: &ChessMove
 }
 
 fn c08_one(ctx: &Ctx, ms: &MateScores, c: &C08Case) {
-    let cf = CacheFunc::new();
+    let oracle = match c { C08Case::Fresh { p, depth, .. } | C08Case::Prewarmed { p, depth, .. } | C08Case::GameReuse { p, depth, .. } => (p.key_hash() ^ *depth as u64) % 3 == 0 && *depth <= 4 };
+    let cf = if oracle { CacheFunc::with_node_oracle(ms) } else { CacheFunc::new() };
     match c {
         C08Case::Fresh { p, depth, pool } => {
-            let tp = mon::pool_with_session(*pool, Some(cf.clone() as Arc<dyn SearchSink>));
+            let tp = mon::pool_with_session_tracking(*pool, Some(cf.clone() as Arc<dyn SearchSink>), oracle);
             let mut b = to_engine(p);
             let mut sc = SearchContext::new(*depth);
             match run_search(&mut b, &mut sc, &mut MoveGenerator::new(), &tp) {
@@ -277,7 +319,7 @@ fn c08_one(ctx: &Ctx, ms: &MateScores, c: &C08Case) {
             }
         }
         C08Case::Prewarmed { p, others, depth, pool } => {
-            let tp = mon::pool_with_session(*pool, Some(cf.clone() as Arc<dyn SearchSink>));
+            let tp = mon::pool_with_session_tracking(*pool, Some(cf.clone() as Arc<dyn SearchSink>), oracle);
             let mut sc = SearchContext::new(*depth);
             let mut g = MoveGenerator::new();
             for op in others { let mut ob = to_engine(op); let _ = run_search(&mut ob, &mut sc, &mut g, &tp); }
@@ -289,7 +331,7 @@ fn c08_one(ctx: &Ctx, ms: &MateScores, c: &C08Case) {
             }
         }
         C08Case::GameReuse { p, depth, plies, pool } => {
-            let tp = mon::pool_with_session(*pool, Some(cf.clone() as Arc<dyn SearchSink>));
+            let tp = mon::pool_with_session_tracking(*pool, Some(cf.clone() as Arc<dyn SearchSink>), oracle);
             let mut game = Game::from_board(to_engine(p), *depth);
             let mut cur = p.clone();
             let mut played: Vec<String> = vec![];
@@ -311,6 +353,10 @@ fn c08_one(ctx: &Ctx, ms: &MateScores, c: &C08Case) {
     ctx.count("search_cache_hits_observed", cf.hits.load(Ordering::Relaxed));
     ctx.count("search_cache_stores_observed", cf.stores.load(Ordering::Relaxed));
     ctx.count("cache_hits_served_across_depth_or_side_(CACHEFUNC)", cf.cross_identity_hits.load(Ordering::Relaxed));
+    ctx.count("interior_nodes_checked_against_the_alpha_beta_bound_contract", cf.contract_checked.load(Ordering::Relaxed));
+    let unsound = cf.contract_unsound.load(Ordering::Relaxed);
+    ctx.count("unsound_interior_bounds_seen_(diagnostic)", unsound);
+    if unsound > 0 { if let Some(f) = cf.first_unsound.lock().unwrap().clone() { println!("NOTE property=C08 (diagnostic, not a verdict) {}", f); ctx.note(&f); } }
 }
 
 pub fn c08(o: &Opts) -> i32 {
